@@ -18,6 +18,7 @@ VERSION_RE = re.compile(r'^HTTP/(\d+).(\d+)$')
 STATUS_RE = re.compile(r'^(\d{3})(?:\s+([\s\w]*))$')
 HEADER_RE = re.compile('[\\x00-\\x1F\\x7F()<>@,;:/\\[\\]={} \\t\\\\"]')
 CTL_RE = re.compile('[\\x00\\r\\n]')
+NOT_LATIN1_RE = re.compile('[^\\x00-\\xff]')
 
 # errors
 BAD_FIRST_LINE = 0
@@ -347,7 +348,7 @@ class HttpParser:
                     curr = curr[:-2]
                 value.append(curr)
             value = ''.join(value).rstrip()
-            if CTL_RE.search(value):
+            if CTL_RE.search(value) or NOT_LATIN1_RE.search(value):
                 raise InvalidHeader('invalid header value %s' % name)
 
             # store new header value
